@@ -76,7 +76,13 @@ def check_basis(ctx, kind, X, nm, idx, layout=None):
         return bad("shape", f"matrix_representation() has shape {full.shape}, expected one row per sensor and one column per retained mode {(nf, cols_expected)}")
     # prefix law, bound check, copy semantics
     for k in range(1, nmodes + 1):
-        Mk = b.matrix_representation(n_basis_modes=k)
+        # the requested count as it comes out of numpy code (np.arange, argmax, searchsorted …) or as a Python int
+        kk = [k, np.int64(k), np.int32(k), np.intp(k)][(k + idx) % 4]
+        try:
+            Mk = b.matrix_representation(n_basis_modes=kk)
+            b.matrix_inverse(n_basis_modes=kk)
+        except Exception as e:
+            return bad("admissible-k-rejected", f"asking for k={k} ≤ {nmodes} modes as {type(kk).__name__} is rejected ({type(e).__name__}: {e})", k=k)
         if not np.array_equal(np.array(Mk), full[:, :k]):
             return bad("prefix", f"matrix_representation({k}) is not the first {k} columns of the full matrix", k=k)
         Mc = b.matrix_representation(n_basis_modes=k, copy=True)
